@@ -8,6 +8,9 @@
               count; p_out.is_empty() is rejected; circ.validate()? is called
   R10.dup     duplicates in p_out are rejected in validate (or the set is normalised)
   R10.pure    validate performs no channel operation and draws no randomness
+  R10.pos     no panicking index by the position of an instruction in circ.insts (only get())
+  R10.arg     no panicking index by Input.party / Input.input unless the Some edge of a get() on the same
+              value, or a fail-closed range comparison of it, dominates the index
 """
 from mir import callee, callee_names
 from an import (SliceInfo, ret_blocks, edge_fail_closed, where, true_edges_of_call, root_local, defs_of)
@@ -21,7 +24,9 @@ META = {
                    "engine call in `_mpc`, and `mpc` only builds the Context; (2) in validate's CFG each caller-supplied "
                    "index (p_own, p_eval, each p_out element) flows into a bounds test against the party count whose "
                    "failing edge can only reach `Err`; length / emptiness / circuit validation tests likewise; "
-                   "(3) duplicates of p_out must be rejected. Holds for every argument value because it is a property "
+                   "(3) duplicates of p_out must be rejected; (4) circuit shapes Circuit::validate does not constrain: no container is "
+                   "indexed (panicking) with the position of an instruction, nor with Input.party / Input.input unless a get() on "
+                   "the same value or a fail-closed range test dominates the index. Holds for every argument value because it is a property "
                    "of all CFG paths. Does not decide completeness of garble_lang's Circuit::validate.",
     "assumptions": [
         "garble_lang::register_circuit::Circuit::validate is the circuit validator (trusted dependency)",
@@ -52,6 +57,7 @@ def run(ctx, res):
     check_fields(fg, res, val_o)
     check_pure(fg, cg, inv, res, val_o)
     check_position_index(fg, res)
+    check_input_fields(fg, res)
 
 
 def check_position_index(fg, res):
@@ -104,6 +110,130 @@ def check_position_index(fg, res):
     res.count("position_indexed_accesses", n)
     if not bad:
         res.ok("R10.pos", "instruction-position", "", "%d accesses by instruction position, all through get()" % n)
+
+
+INPUT_ADT = "garble_lang::register_circuit::Input"
+
+
+def some_edges(b, bi):
+    """(switch block, target) edges taken when the Option returned by the call in block bi (possibly
+    passed through copied()/cloned()/as_ref()) is Some."""
+    out = []
+    vals = {b.blocks[bi]["t"]["d"]["l"]}
+    changed = True
+    while changed:
+        changed = False
+        for bj, t in b.calls():
+            names = callee_names(t)
+            tail = names[-1].rsplit("::", 1)[-1] if names else ""
+            if tail in ("copied", "cloned", "as_ref", "as_mut") and t["args"] and t["args"][0]["k"] != "const" and t["args"][0]["p"]["l"] in vals and t["d"]["l"] not in vals:
+                vals.add(t["d"]["l"])
+                changed = True
+        for blk in b.blocks:
+            for st in blk["s"]:
+                if st["k"] == "assign" and not st["p"]["pr"] and st["r"]["k"] == "use" and st["r"]["o"]["k"] != "const" and not st["r"]["o"]["p"]["pr"] and st["r"]["o"]["p"]["l"] in vals and st["p"]["l"] not in vals:
+                    vals.add(st["p"]["l"])
+                    changed = True
+    for bj, blk in enumerate(b.blocks):
+        t = blk["t"]
+        if t["k"] != "switch" or t["o"]["k"] == "const":
+            continue
+        for st in blk["s"]:
+            if st["k"] == "assign" and st["r"]["k"] == "discr" and st["p"]["l"] == t["o"]["p"]["l"] and st["r"]["p"]["l"] in vals and not st["r"]["p"]["pr"]:
+                for v, tb in t["ts"]:
+                    if str(v) == "1":
+                        out.append((bj, tb))
+                if not any(str(v) == "1" for v, tb in t["ts"]) and any(str(v) == "0" for v, tb in t["ts"]):
+                    out.append((bj, t["else"]))
+    return out
+
+
+def check_input_fields(fg, res):
+    """R10.arg: `Input.party` / `Input.input` of an instruction are not range-checked by
+    Circuit::validate.  Every panicking index whose index value is one of them must be dominated by
+    the Some-edge of a `get(<that value>)` (or a fail-closed comparison of that value)."""
+    from mir import callee_names
+    n_src = n_sink = 0
+    bad = 0
+    for k, b in fg.bodies.items():
+        if b.krate != "polytune" or not b.owner.startswith("polytune::mpc::"):
+            continue
+        val = {}   # local -> "party" | "input"
+        for blk in b.blocks:
+            for st in blk["s"]:
+                if st["k"] != "assign" or st["p"]["pr"]:
+                    continue
+                r = st["r"]
+                pl = r["o"]["p"] if r["k"] == "use" and r["o"]["k"] != "const" else None
+                if pl is None:
+                    continue
+                fl_ = [e for e in pl["pr"] if isinstance(e, dict) and e.get("n")]
+                if fl_ and (fl_[-1].get("a") or "").startswith(INPUT_ADT) and fl_[-1]["n"] in ("party", "input"):
+                    val[st["p"]["l"]] = fl_[-1]["n"]
+        if not val:
+            continue
+        n_src += len(val)
+        changed = True
+        while changed:
+            changed = False
+            for blk in b.blocks:
+                for st in blk["s"]:
+                    if st["k"] != "assign" or st["p"]["pr"] or st["p"]["l"] in val:
+                        continue
+                    r = st["r"]
+                    o = r.get("o") if r["k"] in ("use", "cast") else None
+                    if o and o["k"] != "const" and not o["p"]["pr"] and o["p"]["l"] in val:
+                        val[st["p"]["l"]] = val[o["p"]["l"]]
+                        changed = True
+        # guards: Some-edge of get(value) / fail-closed comparison
+        guards = []   # (field, (src block, dst block))
+        for bi, t in b.calls():
+            names = callee_names(t)
+            tail = names[-1].rsplit("::", 1)[-1] if names else ""
+            if tail in ("get", "get_mut") and len(t["args"]) == 2 and t["args"][1]["k"] != "const" and not t["args"][1]["p"]["pr"] and t["args"][1]["p"]["l"] in val:
+                for e in some_edges(b, bi):
+                    guards.append((val[t["args"][1]["p"]["l"]], e))
+        for bi, blk in enumerate(b.blocks):
+            for st in blk["s"]:
+                if st["k"] == "assign" and st["r"]["k"] == "bin" and st["r"]["op"] in ("Lt", "Le", "Gt", "Ge"):
+                    ops = [o for o in (st["r"]["a"], st["r"]["b"]) if o["k"] != "const" and not o["p"]["pr"] and o["p"]["l"] in val]
+                    t = blk["t"]
+                    if ops and t["k"] == "switch" and t["o"]["k"] != "const" and t["o"]["p"]["l"] == st["p"]["l"]:
+                        tg = [tb for _v, tb in t["ts"]] + [t["else"]]
+                        fc = [x for x in tg if edge_fail_closed(b, bi, x)[0]]
+                        for x in tg:
+                            if x not in fc and fc:
+                                guards.append((val[ops[0]["p"]["l"]], (bi, x)))
+        for bi, t in b.calls():
+            names = callee_names(t)
+            tail = names[-1].rsplit("::", 1)[-1] if names else ""
+            if tail in ("index", "index_mut") and len(t["args"]) == 2 and t["args"][1]["k"] != "const" and not t["args"][1]["p"]["pr"] and t["args"][1]["p"]["l"] in val:
+                n_sink += 1
+                f = val[t["args"][1]["p"]["l"]]
+                if any(g[0] == f and b.edge_dominates(g[1][0], g[1][1], bi) for g in guards):
+                    rl = root_local(b, t["args"][0])
+                    res.ok("R10.arg", "%s|%s[%s]" % (b.owner.rsplit("::", 1)[-1], b.locals[rl]["name"] if rl is not None else "?", f), where(b, bi), "index by Input.%s behind the Some edge of a get() on the same value" % f)
+                    continue
+                bad += 1
+                rl = root_local(b, t["args"][0])
+                var = b.locals[rl]["name"] if rl is not None and b.locals[rl]["name"] else "?"
+                res.bad("R10.arg", "%s|%s[%s]" % (b.owner.rsplit("::", 1)[-1], var, f),
+                        "`%s[..]` is indexed with Input.%s of an instruction, which Circuit::validate does not bound, and no get()/range test on that value dominates the index: a circuit with an out-of-range Input.%s panics" % (var, f, f),
+                        where(b, bi), key="R10.arg|%s|%s|%s" % (b.owner.rsplit("::", 1)[-1], var, f))
+        for bi, blk in enumerate(b.blocks):
+            t = blk["t"]
+            if t["k"] == "assert" and t.get("mk") == "BoundsCheck":
+                idx = t["mops"][1]
+                if idx["k"] != "const" and not idx["p"]["pr"] and idx["p"]["l"] in val:
+                    n_sink += 1
+                    f = val[idx["p"]["l"]]
+                    if not any(g[0] == f and b.edge_dominates(g[1][0], g[1][1], bi) for g in guards):
+                        bad += 1
+                        res.bad("R10.arg", "%s|slice[%s]" % (b.owner.rsplit("::", 1)[-1], f), "a slice is indexed with Input.%s without a dominating range test" % f, where(b, bi))
+    res.need("R10.arg", "input_field_reads", n_src, 2, "reads of Input.party / Input.input in the engine")
+    res.count("input_field_index_sites", n_sink)
+    if not bad and not n_sink:
+        res.ok("R10.arg", "engine", "", "%d reads of Input.party / Input.input: none is used as a panicking index (only get())" % n_src)
 
 
 def engine_call(fg, t, exclude_owners):
